@@ -7,7 +7,7 @@ from dqsa import trans, paths
 from .common import *
 from .sync_common import *
 
-UNITS = ["semaphore", "shims/lock"]
+UNITS = ["semaphore", "shims/lock", "queue"]
 GF = frozenset(["dg_state", "dg_bits", "dg_gen"])
 
 
@@ -198,6 +198,58 @@ def rule_MP4(rep, prog, g):
                             "dispatch_group_wait returns 0 from the state loop without count == 0 being established (known-zero bits %#x) or without "
                             "the acquire fence" % gu.old.k0, sample={"returns": 0, "guard": gu.old.notes[-2:]})
 
+    # every way into the blocking slow path (commit of HAS_WAITERS, or the give-up taken when the bit is already set) has seen count != 0
+    def nonzero(old):
+        return bool(old.k1 & VM) or any(m and (m & ~VM) == 0 for m in old.some_set)
+    nslow = 0
+    for t in ex.transitions(fn, GF):
+        if isinstance(t, trans.GiveUp):
+            if t.to_block is None:
+                continue
+            class _S: pass
+            s = _S(); s.block = t.to_block; s.idx = -1; s.loc = t.site.loc
+            if not any(k_ == "hit" for k_, *_ in paths.walk(fn, s, lambda i: i.op == "call" and i.callee == "_dispatch_group_wait_slow")):
+                continue
+            where = t.site.loc
+        else:
+            where = t.where
+        nslow += 1
+        rep.require(rid, nonzero(t.old), where, fn.name, "wait-blocks-on-empty-group",
+                    "dispatch_group_wait goes on to block (%s) on a path that has not seen count != 0 in the state it read: while a leave has published "
+                    "count 0 but not yet cleared HAS_WAITERS, a second waiter parks on the NEW generation of an empty group and times out / hangs"
+                    % ("gives up into the slow path" if isinstance(t, trans.GiveUp) else "commits HAS_WAITERS"), sample={"guard": t.old.notes[-3:]})
+    if nslow < 2:
+        rep.unknown(rid, "expected the HAS_WAITERS commit and the already-set give-up in dispatch_group_wait, found %d" % nslow)
+
+
+def rule_OD5(rep, prog, g):
+    from .C03 import root_ptr
+    rid = rep.rule("C07-OD5", "the implied leave of dispatch_group_async targets the group captured BEFORE the client callout: a continuation is returned to the "
+                   "per-thread cache before its function runs, so nothing is read from it once _dispatch_client_callout(dc->dc_ctxt, dc->dc_func) was entered", floor=2)
+    n = 0
+    for fn in prog.all_functions():
+        for c in calls_named(fn, "_dispatch_client_callout"):
+            X = None
+            for o in c.ops[:2]:
+                i = fn.inst(o)
+                while i is not None and i.op == "bitcast":
+                    i = fn.inst(i.ops[0])
+                if i is not None and i.op == "load" and (prog.fields(i) & {"dc_ctxt", "dc_func"}) and "dispatch_continuation_s" in (i.d["ptr"].get("sty") or ""):
+                    X = root_ptr(fn, i.d["ptr"]["base"])
+            if X is None:
+                continue
+            n += 1
+            rep.saw(fn)
+            late = [l for l in fn.all_insts() if l.op == "load" and l.d.get("ptr") and root_ptr(fn, l.d["ptr"]["base"]) == X and fn.inst_reaches(c, l)
+                    and not (l.block is c.block and l.idx < c.idx)]
+            rep.require(rid, not late, c.loc, fn.name, "continuation-read-after-callout",
+                        "%s reads %s of the continuation at %s after its client function ran: the continuation was already recycled into the thread cache, a "
+                        "block that itself submits group work overwrites it, so the leave goes to the wrong group (the outer group never empties, the inner "
+                        "one empties early)" % (fn.name, sorted(prog.fields(late[0]))[:2] if late else "", late[0].loc if late else ""),
+                        sample={"fn": fn.name, "callout": c.loc})
+    if n < 2:
+        rep.unknown(rid, "fewer than 2 continuation callouts found (%d)" % n)
+
 
 def run(rep, tier="quick", srcdir=None, only=None):
     prog, units = load(UNITS, tier, srcdir)
@@ -213,6 +265,8 @@ def run(rep, tier="quick", srcdir=None, only=None):
         rule_MP3(rep, prog, g)
     if want("C07-MP4"):
         rule_MP4(rep, prog, g)
+    if want("C07-OD5"):
+        rule_OD5(rep, prog, g)
 
 
 MANIFEST = {
